@@ -274,7 +274,14 @@ class StmtMixin:
     def ex_Try(self, s, fr):
         try:
             try:
-                self.exec_block(s.body, fr)
+                # implicit exceptions raised inside a try body are explicit paths (a handler may catch them)
+                saved_iap = self.implicit_as_paths
+                if s.handlers:
+                    self.implicit_as_paths = True
+                try:
+                    self.exec_block(s.body, fr)
+                finally:
+                    self.implicit_as_paths = saved_iap
             except PyRaise as ex:
                 for h in s.handlers:
                     if self.exc_matches(ex, h, fr):
